@@ -33,6 +33,9 @@ pub enum Proto {
     /// first participant's part two is run
     LargeDkgPart2,
     LargeRefreshPart2,
+    /// the restart is a REAL one: every stored type, written by this (long-lived, multi-suite) process, is
+    /// loaded by a freshly started process that has only ever seen this suite, and the other way round
+    CrossProcess,
 }
 #[derive(Serialize, Deserialize, Clone, Copy, Debug, PartialEq, Eq)]
 pub enum Fmt {
@@ -579,6 +582,7 @@ fn run_proto<C: Suite>(env: &mut Env, proto: Proto, n: u16, t: u16, seed: &str) 
             env.out("signature".to_string(), &sig);
             Ok(())
         }
+        Proto::CrossProcess => Ok(()),
         Proto::LargeDkgPart2 => large_part2::<C>(env, false, seed, n),
         Proto::LargeRefreshPart2 => large_part2::<C>(env, true, seed, n),
         Proto::RepairThenSign => {
@@ -734,6 +738,11 @@ impl Prop for C13 {
                 }
             }
         }
+        for suite in REAL_SUITES {
+            for fmt in [Fmt::Postcard, Fmt::Json, Fmt::Fields] {
+                out.push(serde_json::to_value(Case { suite: suite.to_string(), proto: Proto::CrossProcess, n: 3, t: 2, fmt, crashes: vec![0], seed: format!("s{seed}") }).unwrap());
+            }
+        }
         // thresholds above 255: the round-one secret package of a 260-of-260 run is > 16 kB
         for proto in [Proto::LargeDkgPart2, Proto::LargeRefreshPart2] {
             for suite in if tier == Tier::Thorough { vec!["ed25519", "p256", "secp256k1-tr", "ed448"] } else { vec!["ed25519"] } {
@@ -767,7 +776,184 @@ fn baseline<C: Suite>(proto: Proto, n: u16, t: u16, seed: &str) -> Result<(Vec<(
     Ok((env.transcript, env.labels))
 }
 
+type Reload = Box<dyn Fn(&[u8]) -> Result<Vec<u8>, String>>;
+/// every stored type once: (name, what this process writes, load-and-write-again)
+fn xp_items<C: Suite>(fmt: Fmt, seed: &str) -> Result<Vec<(String, Result<Vec<u8>, String>, Reload)>, String> {
+    fn item<T: Persist + 'static>(name: &str, v: &T, fmt: Fmt) -> (String, Result<Vec<u8>, String>, Reload) {
+        (name.to_string(), v.save(fmt), Box::new(move |b: &[u8]| T::load(b, fmt).and_then(|x| x.save(fmt))))
+    }
+    let m = crate::corpus::material::<C>(3, 2, IdKind::U16x, seed)?;
+    let a = m.grp.ids[0];
+    let b = m.grp.ids[1];
+    let da = m.dkg.ids[0];
+    let db = m.dkg.ids[1];
+    Ok(vec![
+        item("KeyPackage", &m.grp.kps[&a], fmt),
+        item("PublicKeyPackage", &m.grp.pkp, fmt),
+        item("SecretShare", &m.grp.shares.as_ref().unwrap()[&a], fmt),
+        item("SigningNonces", &m.sess.nonces[&a], fmt),
+        item("SigningCommitments", &m.sess.comms[&a], fmt),
+        item("SigningPackage", &m.sess.pkg, fmt),
+        item("SignatureShare", &m.sess.shares[&a], fmt),
+        item("dkg::round1::SecretPackage", &m.dkg.sp1[&da], fmt),
+        item("dkg::round1::Package", &m.dkg.p1[&da], fmt),
+        item("dkg::round2::SecretPackage", &m.dkg.sp2[&da], fmt),
+        item("dkg::round2::Package", &m.dkg.p2[&da][&db], fmt),
+        item("KeyPackage(dkg)", &m.dkg_kp, fmt),
+        item("PublicKeyPackage(dkg)", &m.dkg_pkp, fmt),
+        item("refresh::round1::SecretPackage", &m.rd1_secret, fmt),
+        item("refresh::round1::Package", &m.rd1_pkg, fmt),
+        item("refresh::round2::SecretPackage", &m.rd2_secret, fmt),
+        item("refresh::round2::Package", &m.rd2_pkg, fmt),
+        item("SecretShare(refreshing)", &m.refreshing_share, fmt),
+        item("Delta", &m.delta, fmt),
+        item("Sigma", &m.sigma, fmt),
+        item("KeyPackage(other member)", &m.grp.kps[&b], fmt),
+    ])
+}
+
+/// Child side of the cross-process case: stdin = {name: hex written by the parent}; stdout =
+/// {name: {"loaded": hex of load+save | null, "error": .., "own": hex of what THIS process writes}}
+pub fn child(suite: &str, fmt: &str, seed: &str) -> i32 {
+    fn inner<C: Suite>(fmt: Fmt, seed: &str) -> Result<Value, String> {
+        let mut input = String::new();
+        std::io::Read::read_to_string(&mut std::io::stdin(), &mut input).map_err(es)?;
+        let theirs: BTreeMap<String, String> = serde_json::from_str(&input).map_err(es)?;
+        let mut out = serde_json::Map::new();
+        for (name, own, reload) in xp_items::<C>(fmt, seed)? {
+            let r = theirs.get(&name).and_then(|h| hex::decode(h).ok()).map(|b| reload(&b));
+            out.insert(
+                name,
+                serde_json::json!({
+                    "loaded": r.as_ref().and_then(|x| x.as_ref().ok()).map(hex::encode),
+                    "error": r.as_ref().and_then(|x| x.as_ref().err()).cloned(),
+                    "own": own.ok().map(hex::encode),
+                }),
+            );
+        }
+        Ok(Value::Object(out))
+    }
+    let fmt = match fmt {
+        "Postcard" => Fmt::Postcard,
+        "Json" => Fmt::Json,
+        _ => Fmt::Fields,
+    };
+    match with_suite!(suite, inner, fmt, seed) {
+        Ok(v) => {
+            println!("{v}");
+            0
+        }
+        Err(e) => {
+            eprintln!("c13-child: {e}");
+            2
+        }
+    }
+}
+
+fn run_cross_process<C: Suite>(c: &Case) -> Outcome {
+    use std::io::Write;
+    let mut o = Outcome::new();
+    let tag = format!("C13/{}/CrossProcess/{:?}", C::name(), c.fmt);
+    let items = match xp_items::<C>(c.fmt, &c.seed) {
+        Ok(i) => i,
+        Err(e) => {
+            o.eval(false);
+            o.fail(format!("{tag}/setup"), e);
+            return o;
+        }
+    };
+    let mut mine: BTreeMap<String, String> = BTreeMap::new();
+    for (name, own, _) in &items {
+        match own {
+            Ok(b) => {
+                mine.insert(name.clone(), hex::encode(b));
+            }
+            Err(e) => o.fail(format!("{tag}/cannot-save/{name}"), e.clone()),
+        }
+    }
+    let exe = match std::env::current_exe() {
+        Ok(e) => e,
+        Err(e) => {
+            o.machinery_error(format!("current_exe: {e}"));
+            return o;
+        }
+    };
+    let child = std::process::Command::new(exe)
+        .args(["c13-child", &C::name(), &format!("{:?}", c.fmt), &c.seed])
+        .stdin(std::process::Stdio::piped())
+        .stdout(std::process::Stdio::piped())
+        .stderr(std::process::Stdio::piped())
+        .spawn();
+    let mut child = match child {
+        Ok(ch) => ch,
+        Err(e) => {
+            o.machinery_error(format!("cannot spawn child: {e}"));
+            return o;
+        }
+    };
+    let payload = serde_json::to_string(&mine).unwrap();
+    let mut stdin = child.stdin.take().unwrap();
+    let writer = std::thread::spawn(move || {
+        let _ = stdin.write_all(payload.as_bytes());
+    });
+    let out = child.wait_with_output();
+    let _ = writer.join();
+    let out = match out {
+        Ok(x) => x,
+        Err(e) => {
+            o.machinery_error(format!("child: {e}"));
+            return o;
+        }
+    };
+    if !out.status.success() {
+        // the child runs the same library: if it cannot even build its material the library is broken
+        o.eval(true);
+        o.fail(format!("{tag}/restarted-process-failed"), format!("exit {:?}: {}", out.status.code(), String::from_utf8_lossy(&out.stderr).chars().take(300).collect::<String>()));
+        return o;
+    }
+    let there: BTreeMap<String, Value> = match serde_json::from_slice(&out.stdout) {
+        Ok(v) => v,
+        Err(e) => {
+            o.machinery_error(format!("child output: {e}"));
+            return o;
+        }
+    };
+    o.count("states", 1);
+    for (name, _, reload) in &items {
+        let Some(h) = mine.get(name) else { continue };
+        o.eval(true);
+        o.count("transitions", 2);
+        o.count("restores", 2);
+        let t = &there[name];
+        // (1) the restarted process loads what this process wrote and writes the same bytes again
+        match t["loaded"].as_str() {
+            Some(l) if l == h => o.count("cross_process_loads", 1),
+            Some(_) => o.fail(format!("{tag}/restarted-process-rewrites-differently/{name}"), format!("state written here, loaded and written again by a fresh process differs")),
+            None => o.fail(format!("{tag}/restarted-process-cannot-load/{name}"), format!("a freshly started process of the same ciphersuite rejects the state this process wrote: {}", t["error"])),
+        }
+        // (2) the same value written by the fresh process is byte-identical, and loads here
+        match t["own"].as_str() {
+            Some(w) => {
+                if w != h {
+                    o.fail(format!("{tag}/processes-write-differently/{name}"), format!("the same value is written as {}.. here and as {}.. by a fresh process", &h[..h.len().min(20)], &w[..w.len().min(20)]));
+                }
+                match hex::decode(w).map_err(es).and_then(|b| reload(&b)) {
+                    Ok(_) => o.count("cross_process_loads", 1),
+                    Err(e) => o.fail(format!("{tag}/cannot-load-what-a-fresh-process-wrote/{name}"), e),
+                }
+            }
+            None => o.fail(format!("{tag}/restarted-process-cannot-save/{name}"), "".to_string()),
+        }
+    }
+    o.count("traces", 1);
+    o.class("CrossProcess");
+    o
+}
+
 fn run_case<C: Suite>(c: &Case) -> Outcome {
+    if c.proto == Proto::CrossProcess {
+        return run_cross_process::<C>(c);
+    }
     let mut o = Outcome::new();
     let tag = format!("C13/{}/{:?}/{:?}", C::name(), c.proto, c.fmt);
     let (base, labels) = match baseline::<C>(c.proto, c.n, c.t, &c.seed) {
